@@ -204,6 +204,95 @@ theorem honest_responses_confirm (hpos : ∀ x, 1 ≤ c.exp x) (h : Reach c σ) 
   have hself : (sy.store x l).self = y := my.self_eq
   rw [hk, hself, e]
 
+
+/-! ## member-local progress -/
+
+/-- an uninterrupted pass over the whole table -/
+def readAll (s : TSt) : TSt := s.keys.foldl TSt.visit s.beginRead
+
+theorem foldl_visit : ∀ (l : List Id) (s : TSt) (a : List (Id × View)), s.acc = some a → (∀ k ∈ l, k ∈ s.keys) → l.Nodup →
+    (∀ k ∈ l, k ∉ accKeys a) →
+    l.foldl TSt.visit s = { s with acc := some (a ++ l.map (fun k => (k, s.val k))) }
+  | [], s, a, ha, _, _, _ => by
+    cases s
+    simp at ha
+    simp [ha]
+  | k :: l, s, a, ha, hk, hn, hd => by
+    have h1 : s.visit k = { s with acc := some (a ++ [(k, s.val k)]) } := by
+      unfold TSt.visit
+      rw [ha]
+      simp only
+      rw [if_pos ⟨hk k (List.mem_cons_self), hd k (List.mem_cons_self)⟩]
+    rw [List.foldl_cons, h1]
+    have hn' := List.nodup_cons.mp hn
+    refine (foldl_visit l { s with acc := some (a ++ [(k, s.val k)]) } (a ++ [(k, s.val k)]) rfl (fun k' hk' => hk k' (List.mem_cons_of_mem _ hk')) hn'.2 ?_).trans ?_
+    rotate_left
+    · simp [List.append_assoc]
+    · intro k' hk' hmem
+      simp only [accKeys, List.map_append, List.map_cons, List.map_nil, List.mem_append, List.mem_singleton] at hmem
+      rcases hmem with hmem | rfl
+      · exact hd k' (List.mem_cons_of_mem _ hk') hmem
+      · exact hn'.1 hk'
+
+/-- **A complete, agreeing table is acted upon**: a member in its collecting loop whose peers — exactly
+`expected − 1` of them — all announced its own view settles on that view at its next uninterrupted pass
+(and broadcasts the query). -/
+theorem read_completes (s : TSt) (hp : s.phase = .collect) (ha : s.acc = none) (hn : s.keys.Nodup)
+    (hlen : s.keys.length + 1 = s.expected) (hall : ∀ k ∈ s.keys, s.val k = ownView s.self s.keys) :
+    Listed (readAll s).finishIntersect.1 (ownView s.self s.keys) ∧
+    Out.bcast .query (ownView s.self s.keys) ∈ (readAll s).finishIntersect.2 := by
+  have hb : s.beginRead = { s with acc := some [], start := s.keys } := by
+    unfold TSt.beginRead
+    rw [hp, ha]
+  have hr : readAll s = { s with acc := some (s.keys.map (fun k => (k, s.val k))), start := s.keys } := by
+    unfold readAll
+    rw [hb]
+    refine (foldl_visit s.keys { s with acc := some [], start := s.keys } [] rfl (fun k hk => hk) hn (by simp [accKeys])).trans ?_
+    simp
+  have hk : accKeys (s.keys.map (fun k => (k, s.val k))) = s.keys := by
+    simp [accKeys, List.map_map, Function.comp_def]
+  have hi : intersect s.self (s.keys.map (fun k => (k, s.val k))) = ownView s.self s.keys := by
+    unfold intersect
+    simp only [hk]
+    rw [if_pos]
+    rw [List.all_eq_true]
+    intro kv hkv
+    obtain ⟨k, hk', rfl⟩ := List.mem_map.mp hkv
+    simpa using hall k hk'
+  have hl : (ownView s.self s.keys).length = s.expected := by rw [length_ownView]; exact hlen
+  rw [hr]
+  unfold TSt.finishIntersect
+  simp only [covered, hk, hi, hl, Nat.lt_irrefl, gt_iff_lt, if_false]
+  have hc : (s.keys.all fun k => decide (k ∈ s.keys)) = true := by
+    rw [List.all_eq_true]; intro k hk'; simpa using hk'
+  simp only [hc, not_true_eq_false, if_false]
+  split
+  · exact ⟨Or.inl rfl, by simp⟩
+  · exact ⟨Or.inr ⟨_, rfl⟩, by simp⟩
+
+/-- **Enough matching confirmations complete the call**: with `n` confirmations of the queried list at the head
+of the channel, `n` being the number still needed, the member runs its continuation on the list and returns nil. -/
+theorem acks_complete : ∀ (n : Nat) (s : TSt) (l : View) (rest : List View), s.phase = .query l (n + 1) →
+    s.queue = List.replicate (n + 1) l ++ rest →
+    ∃ s', (Nat.repeat (fun t => t.recvResponse.1) (n + 1) s) = s' ∧ s'.phase = .done l ∧ s'.queue = rest
+  | 0, s, l, rest, hp, hq => by
+    refine ⟨_, rfl, ?_⟩
+    simp [Nat.repeat, TSt.recvResponse, hp, hq, List.replicate]
+  | n + 1, s, l, rest, hp, hq => by
+    have h1 : s.recvResponse.1 = { s with queue := List.replicate (n + 1) l ++ rest, phase := .query l (n + 1) } := by
+      simp only [TSt.recvResponse, hp, hq, List.replicate_succ, List.cons_append, if_true]
+      simp
+    obtain ⟨s', e, h2, h3⟩ := acks_complete n s.recvResponse.1 l rest (by rw [h1]) (by rw [h1])
+    refine ⟨s', ?_, h2, h3⟩
+    rw [← e]
+    -- repeat (n+2) f s = repeat (n+1) f (f s)
+    have : ∀ (k : Nat) (f : TSt → TSt) (t : TSt), Nat.repeat f (k + 1) t = Nat.repeat f k (f t) := by
+      intro k f
+      induction k with
+      | zero => intro t; rfl
+      | succ k ih => intro t; simp only [Nat.repeat] at ih ⊢; rw [ih]
+    exact this (n + 1) _ s
+
 /-! ## the confirmation channel never fills up (used by C10: handlers never block) -/
 
 structure RInv (c : Cfg) (x : Id) (s : TSt) : Prop where
@@ -411,5 +500,150 @@ theorem responses_never_block (hnd : c.members.Nodup) (h : Reach c σ) :
         | ctx =>
           simp only [TSt.op, TSt.ctxDone] at ho
           split at ho <;> simp at ho
+
+/-! ## executable runs (non-vacuity; also the replay format of the check) -/
+
+inductive Step
+  | start (x : Id)
+  | handle (x src : Id) (k : Kind) (v : View)
+  | op (x : Id) (o : Op)
+
+def execStep (c : Cfg) (σ : Sys) : Step → Option Sys
+  | .start x => if c.honest x = true ∧ x ∈ c.members ∧ σ.st x = none then some (σ.startAt c x) else none
+  | .handle x src k v =>
+    match σ.st x with
+    | some s =>
+      if c.honest x = true ∧ src ∈ c.members ∧ src ≠ x ∧ (c.honest src = true → k ≠ .response → (src, v) ∈ σ.ann)
+      then some (σ.handleAt x src k v s) else none
+    | none => none
+  | .op x o =>
+    match σ.st x with
+    | some s => if c.honest x = true then some (σ.upd x (s.op o)) else none
+    | none => none
+
+def exec (c : Cfg) : Sys → List Step → Option Sys
+  | σ, [] => some σ
+  | σ, st :: rest => (execStep c σ st).bind (fun σ' => exec c σ' rest)
+
+theorem exec_reach {c : Cfg} : ∀ (steps : List Step) {σ σ' : Sys}, Reach c σ → exec c σ steps = some σ' → Reach c σ'
+  | [], σ, σ', h, e => by
+    simp only [exec, Option.some.injEq] at e
+    subst e
+    exact h
+  | st :: rest, σ, σ', h, e => by
+    simp only [exec] at e
+    cases hs : execStep c σ st with
+    | none => rw [hs] at e; simp at e
+    | some σ1 =>
+      rw [hs] at e
+      simp only [Option.bind_some] at e
+      refine exec_reach rest ?_ e
+      cases st with
+      | start x =>
+        simp only [execStep] at hs
+        split at hs
+        · rename_i hc
+          cases hs
+          exact Reach.start h x hc.1 hc.2.1 hc.2.2
+        · cases hs
+      | handle x src k v =>
+        simp only [execStep] at hs
+        split at hs
+        · rename_i s hst
+          split at hs
+          · rename_i hc
+            cases hs
+            exact Reach.handle h x src k v s hc.1 hst hc.2.1 hc.2.2.1 hc.2.2.2
+          · cases hs
+        · cases hs
+      | op x o =>
+        simp only [execStep] at hs
+        split at hs
+        · rename_i s hst
+          split at hs
+          · rename_i hc
+            cases hs
+            exact Reach.op h x o s hc hst
+          · cases hs
+        · cases hs
+
+/-- three configured members, 3 corrupted, two expected -/
+def exCfg : Cfg := { members := [1, 2, 3], honest := fun x => x != 3, exp := fun _ => 2 }
+
+def exRun : List Step :=
+  [.start 1, .start 2,
+   .op 1 .begin, .op 1 .finishT,                       -- 1 announces [1]
+   .handle 2 1 .membership [1],
+   .op 2 .begin, .op 2 (.visit 1), .op 2 .finishT,     -- 2 announces [1,2]
+   .handle 1 2 .membership [1, 2],
+   .handle 1 3 .membership [7, 7, 7],                  -- the corrupted member interferes …
+   .op 1 .begin, .op 1 (.visit 2), .op 1 (.visit 3), .op 1 .finishI,   -- … so this evaluation fails
+   .handle 1 3 .membership [1, 2, 3],
+   .op 1 .begin, .op 1 (.visit 3), .op 1 (.visit 2), .op 1 .finishT,   -- 1 announces [1,2,3]
+   .handle 2 1 .membership [1, 2, 3],
+   .op 2 .begin, .op 2 (.visit 1), .op 2 .finishI,     -- 2: views differ, keeps collecting
+   .handle 2 3 .query [1, 2, 3],                       -- 3 tells 2 the same; 2 answers
+   .op 2 .begin, .op 2 (.visit 3), .op 2 (.visit 1), .op 2 .finishI,   -- too many members for 2: it fails
+   .op 1 .ctx]
+
+/-- the run above is a reachable history in which member 2 fails with "too many members" and 1 is cancelled -/
+example : ((exec exCfg Sys.init exRun).bind (fun σ => (σ.st 2).map (·.phase))) = some .failed := by decide
+example : ((exec exCfg Sys.init exRun).map (fun σ => (outRets (outsOf 2 σ.hist), outRets (outsOf 1 σ.hist)))) =
+    some ([false], [false]) := by decide
+
+def exRun2 : List Step :=
+  [.start 1, .start 2,
+   .op 1 .begin, .op 1 .finishT, .handle 2 1 .membership [1],
+   .op 2 .begin, .op 2 (.visit 1), .op 2 .finishT, .handle 1 2 .membership [1, 2],
+   .op 1 .begin, .op 1 (.visit 2), .op 1 .finishI,     -- 1 settles on [1,2] and queries
+   .handle 2 1 .query [1, 2],                          -- 2 answers [1,2]
+   .op 2 .begin, .op 2 (.visit 1), .op 2 .finishI,     -- 2 settles on [1,2]
+   .handle 1 2 .query [1, 2],
+   .handle 1 3 .response [9],                          -- a corrupted confirmation of something else is skipped
+   .handle 1 2 .response [1, 2], .handle 2 1 .response [1, 2],
+   .op 1 .resp, .op 1 .resp, .op 2 .resp]
+
+/-- **Non-vacuity of `sync_valid` / `sync_agree` / `continuations_agree`**: a reachable history in which two
+honest members, with a corrupted third one interfering, both run their continuation on `[1, 2]`. -/
+example : ((exec exCfg Sys.init exRun2).map
+    (fun σ => ((σ.st 1).map (·.phase), (σ.st 2).map (·.phase), outConts (outsOf 1 σ.hist), outConts (outsOf 2 σ.hist)))) =
+    some (some (.done [1, 2]), some (.done [1, 2]), [[1, 2]], [[1, 2]]) := by decide
+
+/-- Observation (outside the property's statement, which presupposes an expected size a list containing
+the member can have): with `expectedMemberCount = 0` and disagreeing views the continuation runs with the
+empty list — model and code agree on this (lockstep runs with expected 0). -/
+theorem expected_zero_observation :
+    ({ self := 1, expected := 0, cap := 2, keys := [2], val := fun _ => [5], acc := some [(2, [5])], start := [2] } : TSt).finishIntersect.2
+      = [.bcast .query [], .cont [], .ret true] := by decide
+
+/-! ## the member: bytes, tags, several topics -/
+
+/-- A message changes nothing unless it decodes and its tag is the one registered for its authenticated
+sender on a registered topic; then exactly that topic's state takes the `TSt.handle` step of the model
+above, with the decoded kind and view. -/
+theorem member_handle_spec (m : Member) (src : Id) (msg : Bytes) :
+    ((m.handle src msg).1 = m ∧ ((m.handle src msg).2 = .ignored ∨ (m.handle src msg).2 = .panic)) ∨
+    ∃ ty tag peers t s k, decodeView msg = .ok ty tag peers ∧ m.lookup tag = some (t, src) ∧ m.topic? t = some s ∧
+      kindOf ty = some k ∧
+      (m.handle src msg).1 = m.setTopic t (s.handle src k (peers.map (·.toNat))).1 ∧
+      (m.handle src msg).2 = .handled t (s.handle src k (peers.map (·.toNat))).2 := by
+  unfold Member.handle
+  split
+  · exact Or.inl ⟨rfl, Or.inr rfl⟩
+  · exact Or.inl ⟨rfl, Or.inl rfl⟩
+  · rename_i ty tag peers hd
+    split
+    · exact Or.inl ⟨rfl, Or.inl rfl⟩
+    · rename_i t id hl
+      split
+      · exact Or.inl ⟨rfl, Or.inl rfl⟩
+      · rename_i hid
+        have hid' : id = src := by simpa using hid
+        subst hid'
+        split
+        · rename_i s k hs hk
+          exact Or.inr ⟨ty, tag, peers, t, s, k, hd, hl, hs, hk, rfl, rfl⟩
+        · exact Or.inl ⟨rfl, Or.inl rfl⟩
+
 
 end TSSVerif.Props.C07
